@@ -166,7 +166,8 @@ def hermite_He_der_seq(ns, x):
     # in use here
     ns = list(ns)
     min_i = 0
-    out = np.empty((len(ns), *x.shape), dtype=x.dtype)
+    # rows hold what the recurrence produces: floats, also for integer coordinates
+    out = np.empty((len(ns), *x.shape), dtype=np.result_type(x, 1.0))
     if ns[min_i] == 0:
         out[min_i] = 0
         min_i += 1
@@ -367,7 +368,8 @@ def hermite_H_der_seq(ns, x):
     # in use here
     ns = list(ns)
     min_i = 0
-    out = np.empty((len(ns), *x.shape), dtype=x.dtype)
+    # rows hold what the recurrence produces: floats, also for integer coordinates
+    out = np.empty((len(ns), *x.shape), dtype=np.result_type(x, 1.0))
     if ns[min_i] == 0:
         out[min_i] = 0
         min_i += 1
